@@ -29,6 +29,7 @@ static const mvh_class *find_class(const char *n) {
 const char *mvh_harness_name __attribute__((weak)) = "mvh";
 static void (*plan_extra)(FILE *);
 void mvh_set_plan_extra(void (*fn)(FILE *)) { plan_extra = fn; }
+int ptprog_refplan(const char *csv) __attribute__((weak));
 static const mvh_class *cur_class;
 static long cur_params[MVH_MAX_PARAMS];
 static void plan_dumper(FILE *f) {
@@ -108,6 +109,7 @@ int main(int argc, char **argv) {
     else if (!strcmp(argv[i], "--sigfile") && i + 1 < argc) sigfile = argv[++i];
     else if (!strcmp(argv[i], "--max-seconds") && i + 1 < argc) max_seconds = atof(argv[++i]);
     else if (!strcmp(argv[i], "--envprobe") && i + 1 < argc) { mvsim_global_init(); return envprobe(atol(argv[++i])); }
+    else if (!strcmp(argv[i], "--refplan") && i + 1 < argc) return ptprog_refplan ? ptprog_refplan(argv[++i]) : 2;
     else if (!strcmp(argv[i], "--verbose")) verbose = 1;
     else if (!strcmp(argv[i], "--dump-plan")) dump_plan = 1;
     else if (!strcmp(argv[i], "--set") && i + 1 < argc && nov < 48) {
